@@ -179,42 +179,61 @@ class ClosureCells:
         base, flds = org
         return (base, tuple(x_ for x_ in flds if x_ != "*"))
 
-    @staticmethod
-    def _is_set_value(body, rv):
-        """True for `true` and for `Some(..)`"""
+    def _set_value(self, body, rv):
+        """the value a store puts into a cell, if it is one of the 'flag raised' shapes: `true` -> ('bool', 1),
+        `Some(..)` -> ('discr', 1), a field-less variant of a local enum -> ('discr', its discriminant)"""
+        agg = None
         if rv["r"] == "use":
             k = rv["o"].get("k")
             if k is not None:
-                return k.get("v") == 1
-            return any(v[1] == "Some" for v in T.agg_variant(body, rv["o"]))
-        if rv["r"] == "agg":
-            return rv.get("variant") == "Some"
-        return False
+                return ("bool", 1) if k.get("v") == 1 else None
+            for r, p in body.resolve(rv["o"]):
+                if r[0] == "agg" and not p:
+                    agg = body.agg_at(r[1], r[2])
+        elif rv["r"] == "agg":
+            agg = rv
+        if agg is None or agg.get("kind") != "adt" or "variant_idx" not in agg:
+            return None
+        if agg.get("adt") == "std::option::Option":
+            return ("discr", 1) if agg.get("variant") == "Some" else None
+        a = body.facts.adts.get(agg.get("adt"))
+        if a is not None and a.get("kind") == "Enum" and not agg["fields"]:
+            d = a["variants"][agg["variant_idx"]].get("discr")
+            return ("discr", agg["variant_idx"] if d is None else d)
+        return None
 
-    def set_stores(self):
-        """[(bb, cell)]: statements of the closure that put `true` / `Some(..)` into a cell"""
+    def set_stores_valued(self):
+        """[(bb, cell, value)]: statements of the closure that raise a cell. For an enum-valued cell the value the
+        creating function *initialises* it with is not a raise (it is the 'nothing happened yet' state)."""
         out = []
         cl = self.closure
         for i, j, st in cl.statements():
-            if st["s"] != "assign" or cl.is_cleanup(i) or not self._is_set_value(cl, st["rv"]):
+            if st["s"] != "assign" or cl.is_cleanup(i):
+                continue
+            v = self._set_value(cl, st["rv"])
+            if v is None:
                 continue
             c = self.of_closure_place(st["pl"])
             if c is not None:
-                out.append((i, c))
+                out.append((i, c, v))
         return out
+
+    def set_stores(self):
+        return [(i, c) for i, c, v in self.set_stores_valued()]
 
     def cells(self):
         return sorted({c for _, c in self.set_stores()})
 
     def set_edges(self, cell):
-        """edges of the creating function taken when the cell is set (true / Some), and when it is not"""
+        """edges of the creating function taken when the cell is raised (true / Some / the variant the closure
+        stores), and when it is not"""
         b = self.parent
+        values = {v for i, c, v in self.set_stores_valued() if c == cell}
         yes, no = [], []
         for sw, blk in enumerate(b.blocks):
             t = blk["term"]
             if t["t"] != "switch" or b.is_cleanup(sw):
                 continue
-            kind, _ = T.switch_reads(b, sw)
             e = b.expr(t["on"])
             neg = False
             while e[0] == "not":
@@ -224,8 +243,18 @@ class ClosureCells:
                 continue
             if self.of_parent_place(e[2]) != cell:
                 continue
-            zero = [(sw, tgt) for v, tgt in t["targets"] if v == 0]
-            nonzero = [(sw, tgt) for v, tgt in t["targets"] if v != 0]
+            if e[0] == "discr" and any(v[0] == "discr" for v in values):
+                want = {v[1] for v in values if v[0] == "discr"}
+                listed = {v_: tgt for v_, tgt in t["targets"]}
+                y = [(sw, listed[v_]) for v_ in want if v_ in listed]
+                if any(v_ not in listed for v_ in want):
+                    y.append((sw, t["otherwise"]))
+                n_ = [(sw, tgt) for tgt, lab in b.succ_edges(sw) if (sw, tgt) not in y and b.blocks[tgt]["term"]["t"] != "unreachable"]
+                yes += y
+                no += n_
+                continue
+            zero = [(sw, tgt) for v_, tgt in t["targets"] if v_ == 0]
+            nonzero = [(sw, tgt) for v_, tgt in t["targets"] if v_ != 0]
             if zero:
                 nonzero = nonzero + [(sw, t["otherwise"])]
             else:
@@ -337,6 +366,143 @@ def import_results(ck, module, clause, func_substr, new_clause):
             n += 1
     ck.floors += [dict(fl, clause=new_clause) for fl in sub.floors if fl["clause"] == clause and (func_substr is None or func_substr in fl["what"])]
     return n
+
+
+def payload_value(body, op):
+    """the small value an operand denotes, independent of its encoding: ('const', n) for an integer / bool constant,
+    ('discr', adt, k) for a field-less variant of an enum; None otherwise"""
+    v = T.const_value(body, op, 64)
+    if v is not None:
+        return ("const", v)
+    vals = set()
+    for r, p in body.resolve(op):
+        if r[0] == "agg" and not p:
+            a = body.agg_at(r[1], r[2])
+            if a.get("kind") == "adt" and "variant_idx" in a and not a["fields"]:
+                ad = body.facts.adts.get(a.get("adt"))
+                d = ad["variants"][a["variant_idx"]].get("discr") if ad else None
+                vals.add(("discr", a.get("adt"), a["variant_idx"] if d is None else d))
+            else:
+                return None
+        elif r[0] == "const":
+            return None
+        else:
+            return None
+    return vals.pop() if len(vals) == 1 else None
+
+
+def busy_value(facts, method):
+    """what DispatcherInner::<method> answers when it cannot borrow its own cell (it is being dispatched): the payload of
+    the `Ok(..)` returned on the failed try-borrow edge — `false`, or the variant of a small enum that replaced the bool"""
+    b = facts.body("<RefCell<DispatcherInner> as EventDispatcher>::" + method)
+    if b is None:
+        return None
+    trying = [cs for cs in T.calls(b, name=("try_borrow_mut", "try_borrow"), path="std::cell::RefCell") if T.resolves_to_arg(b, cs.args[0], 1)]
+    vals = set()
+    for t in trying:
+        ok_e, err_e, _ = T.result_split(b, t.bb)
+        for i, j, st in b.statements():
+            if st["s"] == "assign" and st["pl"]["l"] in T.ret_locals(b) and st["rv"]["r"] == "agg" and st["rv"].get("variant") == "Ok" and not b.is_cleanup(i) and st["rv"]["fields"]:
+                if err_e and T.reachable_only_via(b, i, err_e):
+                    vals.add(payload_value(b, st["rv"]["fields"][0]))
+    vals.discard(None)
+    return vals.pop() if len(vals) == 1 else None
+
+
+def value_test_edges(body, call_bb, value):
+    """edges of `body` taken when the (Ok payload of the) result of call_bb equals `value` (see payload_value), however
+    the test is written: a switch on the bool / on the discriminant, or `result == Enum::Variant` through PartialEq"""
+    yes = []
+    if value is None:
+        return yes
+    if value[0] == "const":
+        for sw, mode in T.call_result_switches(body, call_bb):
+            if mode == "bool":
+                yes += T.edges_of_value(body, sw, bool(value[1]))
+        tr, fa = T.bool_split(body, call_bb)
+        yes += [e for e in (tr if value[1] else fa) if e not in yes]
+        return yes
+
+    def is_result(op):
+        return any(r == ("call", call_bb) and all(x in (".branch", " as Continue", ".0", " as Ok", "&", "*", ".unwrap") for x in p) for r, p in body.resolve(op))
+
+    for sw in T.switches_on_expr(body, lambda e: e[0] == "discr"):
+        e = body.expr(body.blocks[sw]["term"]["on"])
+        if is_result({"c": e[2]}) and any(" as Continue" in p or " as Ok" in p or ".unwrap" in p for r, p in body.resolve(e[2])):
+            yes += T.discr_edges(body, sw, value[2])
+    # a derived `==` that was inlined: Eq(discriminant_value(&result), discriminant_value(&Enum::Variant))
+    def discr_subject(op):
+        """the operand a discriminant temp was read from: ('result',) | ('variant', adt, k) | None"""
+        pl = op_place(op)
+        if pl is None or pl["p"]:
+            return None
+        ds = body.defs().get(pl["l"], [])
+        if len(ds) != 1:
+            return None
+        if ds[0][0] == "call":
+            cs = body.call_at(ds[0][1])
+            if cs is None or not (cs.path or "").endswith("intrinsics::discriminant_value") or not cs.args:
+                return None
+            src = cs.args[0]
+        elif ds[0][3]["rv"]["r"] == "discr":
+            src = {"c": ds[0][3]["rv"]["pl"]}
+        elif ds[0][3]["rv"]["r"] in ("use", "cast"):
+            return discr_subject(ds[0][3]["rv"]["o"])
+        else:
+            return None
+        if is_result(src):
+            return ("result",)
+        pv = T.promoted_variant(body, src)
+        if pv is not None:
+            return ("variant", pv[0], pv[2])
+        v = payload_value(body, src)
+        if v is not None and v[0] == "discr":
+            return ("variant", v[1], v[2])
+        return None
+
+    for i, j, st in body.statements():
+        if st["s"] != "assign" or st["rv"]["r"] != "bin" or st["rv"]["op"] not in ("Eq", "Ne") or body.is_cleanup(i) or st["pl"]["p"]:
+            continue
+        a, b_ = discr_subject(st["rv"]["a"]), discr_subject(st["rv"]["b"])
+        if a is None or b_ is None or (a[0] == "result") == (b_[0] == "result"):
+            continue
+        other = b_ if a[0] == "result" else a
+        if other[1:] != value[1:]:
+            continue
+        for sw, blk in enumerate(body.blocks):
+            t = blk["term"]
+            if t["t"] == "switch" and not body.is_cleanup(sw) and any(r == ("rv", i, j) and not p for r, p in body.resolve(t["on"])):
+                yes += T.edges_of_value(body, sw, st["rv"]["op"] == "Eq")
+    for c in T.calls(body, name=("eq", "ne")):
+        if body.is_cleanup(c.bb) or len(c.args) != 2:
+            continue
+        sides = [is_result(a) for a in c.args]
+        if sides[0] == sides[1]:
+            continue
+        other = c.args[1] if sides[0] else c.args[0]
+        ov = None
+        for r, p in body.resolve(other):
+            pp = tuple(x for x in p if x not in ("&", "*"))
+            if r[0] == "agg" and not pp:
+                ov = payload_value(body, {"c": {"l": body.blocks[r[1]]["st"][r[2]]["pl"]["l"], "p": [], "t": 0}})
+            elif r[0] == "const":
+                cv = body.facts.consts.get(r[1])
+        if ov is None:
+            pv = T.promoted_variant(body, other)
+            if pv is not None:
+                ov = ("discr", pv[0], pv[2])
+        if ov is None:
+            # a promoted constant `&Enum::Variant`: printed form of the constant
+            nm = T.const_name(body, other) or " ".join(x for x in body.roots_str(other))
+            ad = body.facts.adts.get(value[1])
+            if ad:
+                for v in ad["variants"]:
+                    if (v.get("discr") == value[2]) and nm.endswith("::" + v["name"]):
+                        ov = value
+        if ov == value:
+            tr, fa = T.bool_split(body, c.bb)
+            yes += tr if c.name == "eq" else fa
+    return yes
 
 
 def mode_converter(facts):
